@@ -118,7 +118,7 @@ class Templates:
             self.made[key] = d
         return self.made[key]
 
-    def fresh(self, refs0, store0, layout="loose"):
+    def fresh(self, refs0, store0, layout="loose", keep=False):
         """A new bare repository holding the commits of store0 (hard links to the template's loose
         objects) and the refs of refs0, laid out loose or packed."""
         self.n += 1
@@ -143,11 +143,21 @@ class Templates:
             name = REFNAMES[idx]
             if layout == "packed":
                 packed.append(fx.sha[v] + b" " + name + b"\n")
-            else:
-                p = os.path.join(d, os.fsdecode(name))
-                os.makedirs(os.path.dirname(p), exist_ok=True)
-                with open(p, "wb") as f:
-                    f.write(fx.sha[v] + b"\n")
+                continue
+            if layout == "both":
+                # loose + packed: packed-refs still carries an older value of the ref
+                older = next((o for o in sorted(store0) if o != v), v)
+                packed.append(fx.sha[older] + b" " + name + b"\n")
+            p = os.path.join(d, os.fsdecode(name))
+            os.makedirs(os.path.dirname(p), exist_ok=True)
+            with open(p, "wb") as f:
+                f.write(fx.sha[v] + b"\n")
+        if keep and store0:
+            # a loose ref nobody pushes to: refs/heads never becomes empty, so a delete's clean-up of
+            # empty directories cannot pull the directory from under a concurrent create (that race is
+            # about the ref files, C08/C16, not about what a push reports)
+            with open(os.path.join(d, "refs", "heads", "zz-keep"), "wb") as f:
+                f.write(fx.sha[sorted(store0)[0]] + b"\n")
         if packed:
             with open(os.path.join(d, "packed-refs"), "wb") as f:
                 f.write(b"# pack-refs with: peeled fully-peeled sorted \n" + b"".join(sorted(packed, key=lambda l: l.split(b" ")[1])))
@@ -191,6 +201,9 @@ class Rec:
         self.sched = None
         self.descs = {}          # p -> descriptor
         self.present = set()
+        self._in = set()         # pushers inside a wrapped ref operation
+        self._inpack = set()
+        self._refop = {}         # p -> record of the ref operation in progress
 
     def who(self):
         a = getattr(greenlet.getcurrent(), "actor_id", None)
@@ -285,7 +298,7 @@ def install():
 
         def w(self, name, *a, **kw):
             rec = _rec_for(self.path)
-            if rec is None or getattr(rec, "_in", False):
+            if rec is None or rec.who() in rec._in:
                 return orig(self, name, *a, **kw)
             p = rec.who()
             rec.yp(("refop", name))
@@ -296,15 +309,21 @@ def install():
                 cold, cnew = ZERO, a[0]
             else:
                 cold, cnew = a[0], ZERO
-            pre = fx.v(read_ref_file(rec.root, name))
+            # value before the operation: read now, and -- when the run has a scheduling point at the
+            # acquisition of the ref's lock file -- read again by lock_observer() the moment this push
+            # holds <ref>.lock (everything from there to the return is one atomic step of the schedule)
+            cur = {"name": name, "pre": fx.v(read_ref_file(rec.root, name)), "locked": False}
             res, exc = None, None
-            rec._in = True
+            rec._in.add(p)
+            rec._refop[p] = cur
             try:
                 res = orig(self, name, *a, **kw)
             except BaseException as e:
                 exc = e
             finally:
-                rec._in = False
+                rec._in.discard(p)
+                rec._refop.pop(p, None)
+            pre = cur["pre"]
             post = fx.v(read_ref_file(rec.root, name))
             rec.log({"p": p, "op": "refop", "i": rec.cmd_index(p, name), "kind": kind, "ref": os.fsdecode(name),
                      "cold": -1 if cold is None else fx.v(cold), "cnew": fx.v(cnew), "pre": pre, "post": post,
@@ -325,10 +344,10 @@ def install():
 
         def w(self, *a, **kw):
             rec = _rec_for(self.path)
-            if rec is None or getattr(rec, "_inpack", False):
+            if rec is None or rec.who() in rec._inpack:
                 return orig(self, *a, **kw)
             p = rec.who()
-            rec._inpack = True
+            rec._inpack.add(p)
             exc = None
             try:
                 return orig(self, *a, **kw)
@@ -336,7 +355,7 @@ def install():
                 exc = e
                 raise
             finally:
-                rec._inpack = False
+                rec._inpack.discard(p)
                 rec.log({"p": p, "op": "unpack", "ok": exc is None, "exc": type(exc).__name__ if exc else "",
                          "store": rec.store_now()})
         w.__name__ = name
@@ -498,12 +517,29 @@ def local_push(rec, p, desc):
              "refs": rec.refs_now(), "store": rec.store_now()})
 
 
+def is_ref_lock(op, path):
+    return path is not None and path.startswith("refs/") and path.endswith(".lock")
+
+
+def lock_observer(rec):
+    def observe(world, ev):
+        if ev.get("op") != "open_excl":
+            return
+        # (a failed acquisition is the instant the operation gives up: same reading)
+        cur = rec._refop.get(ev.get("a"))
+        if cur is None or cur["locked"] or ev.get("p") != os.fsdecode(cur["name"]) + ".lock":
+            return
+        cur["locked"] = True
+        cur["pre"] = rec.fx.v(read_ref_file(rec.root, cur["name"]))
+    return observe
+
+
 # --------------------------------------------------------------------------- one case
 def run_case(tpl: Templates, case, prefix=(), stateless=False, explore_info=None):
     """Execute the pushes of `case` on a fresh real repository.  Returns the trace dict.
     One pusher: plain call.  Several: greenlets under the scheduler with schedule `prefix`."""
     install()
-    root = tpl.fresh(case["refs0"], case["store0"], case.get("layout", "loose"))
+    root = tpl.fresh(case["refs0"], case["store0"], case.get("layout", "loose"), keep=bool(case.get("lockyield")))
     nrefs = len(case["refs0"])
     rec = Rec(root, nrefs)
     _ACTIVE[rec.root] = rec
@@ -516,7 +552,15 @@ def run_case(tpl: Templates, case, prefix=(), stateless=False, explore_info=None
             rec.cur = 1
             (local_push if descs[0]["kind"] == "local" else wire_push)(rec, 1, descs[0], *(() if descs[0]["kind"] == "local" else (stateless,)))
         else:
-            world = sched.World(root, yield_ops=set())
+            lockyield = bool(case.get("lockyield"))
+            if lockyield:
+                # additional scheduling point inside every ref operation: the acquisition of the ref's
+                # own lock file, i.e. between whatever the operation read beforehand (packed-refs, symref
+                # chain) and its compare-and-write under the lock
+                world = sched.World(root, observe=lock_observer(rec), yield_ops={"open_excl"}, yield_pred=is_ref_lock,
+                                    wrap_files=False)
+            else:
+                world = sched.World(root, yield_ops=set())
             actors = {}
             for p, d in enumerate(descs, 1):
                 if d["kind"] == "local":
@@ -525,13 +569,20 @@ def run_case(tpl: Templates, case, prefix=(), stateless=False, explore_info=None
                     actors[p] = (lambda p=p, d=d: wire_push(rec, p, d, stateless))
             s = sched.Scheduler(world, actors, prefix, collect="never")
             rec.sched = s
-            s.run()
+            if lockyield:
+                with sched.Interposer(world):
+                    s.run()
+                world.events.clear()
+            else:
+                s.run()
             rec.sched = None
     finally:
         _ACTIVE.pop(rec.root, None)
         shutil.rmtree(root, ignore_errors=True)
     tr = {"refs0": list(case["refs0"]), "store0": sorted(case["store0"]), "push": descs, "ev": rec.ev,
           "layout": case.get("layout", "loose"), "stateless": stateless}
+    if case.get("lockyield"):
+        tr["lockyield"] = True
     if s is not None:
         tr["choices"] = s.choices()
         tr["sched_trace"] = [(list(en), ch, cur) for (en, ch, cur) in s.trace]
